@@ -375,8 +375,20 @@ CLAIMED["C10"] = dict(
         "concurrent growth, the slots freed by a growth that fails half way. " + TRUST,
    design="DESIGN.md §4 C10")
 
+CLAIMED["C03"] = dict(
+   text="Proof-level kernel of the reopening step over the ghost file model, for every index file size (both offset widths): CheckAndFixVolumeDataIntegrity, run on "
+        "every volume load, truncates the index file only to a non-negative multiple of the entry size that is not larger than the file (guard at every Truncate), "
+        "and fails only for a reason other than a torn last entry - the size cannot be read, a truncation fails, or one of the last records does not check out "
+        "against the data file; verifyIndexFileIntegrity succeeds exactly for a readable size that is a multiple of the entry size. So an index file that kept any "
+        "prefix of an interrupted 16/17-byte append does not by itself fail the load.",
+   note="The crash-point quantification itself (every prefix of both files, every interleaving of the two appends) is outside a per-function contract: decided is "
+        "the index-side tolerance only. Assumed: util.GetFileSize and os.File.Truncate over the ghost file; doCheckAndFixVolumeData (the per-record check against "
+        "the data file, which also cuts an orphan record off the data file) is trusted here. Not decided: that every fully written blob reads back (C01/C02/C05 "
+        "decide the per-operation steps), the data-file side of a torn record. One defect repaired (a torn last index entry crashed the volume server on restart; "
+        "replayed). " + TRUST,
+   design="DESIGN.md §4 C03")
+
 NA = {
- "C03":"crash-point property over byte-level truncation of two persistent files; no per-function contract within reach decides it (DESIGN §4 C03)",
  "C15":"planners over string-keyed map snapshots; needs multiset/cardinality reasoning over maps that the generator cannot do unbounded",
  "C16":"same reason as C15: planners over map snapshots and shard bitmaps across many servers",
  "C27":"recursive listing driven by gRPC stream callbacks with mutable cursor state across recursion over an external tree",
